@@ -58,6 +58,14 @@ class Ctx:
                 if p.returncode != 0:
                     raise CheckError("harness does not build against the current /repo tree:\n" + p.stdout[-3000:])
 
+    def build_swagger(self):
+        """Build the swagger command from the current /repo working tree (what a user would run)."""
+        with self.lock("gobuild"):
+            p = self.sh(["go", "build", "-o", os.path.join(BIN, "swagger"), "./cmd/swagger"], cwd=REPO, check=False)
+            self.sh(["git", "-C", REPO, "checkout", "--", "go.sum"], check=False)
+            if p.returncode != 0:
+                raise CheckError("cmd/swagger does not build from the current tree:\n" + p.stdout[-3000:])
+
     def translate(self, names):
         for n, out in names:
             p = self.sh([os.path.join(BIN, "gstrans"), n, REPO, os.path.join(COQ, "Gen", out)], check=False)
@@ -180,3 +188,90 @@ TRUSTED_BASE_COMMON = [
     "translators/gstrans (Go, go/parser): regenerates coq/Gen/*.v from /repo on every run",
     "Go harness (generators, canonicalisers, worker process) and ./check (Python)",
 ]
+
+
+# ---------------------------------------------------------------------------------------------
+# shared phases for the per-property check modules
+# ---------------------------------------------------------------------------------------------
+def coq_phase(ctx, props_file, cone_files, model_targets):
+    """Build the model targets and the property file; audit. Returns dict(broken, closed, axioms, n_qed, ok_model, ok_props)."""
+    import re as _re
+    broken = []
+    ok_model, log_model = (True, "")
+    if model_targets:
+        ok_model, log_model = ctx.coq_make(model_targets)
+        if not ok_model:
+            broken.append({"kind": "model-build", "where": ", ".join(model_targets), "error": log_model[-600:]})
+    ok_props, log_props = ctx.coq_make([props_file.replace(".v", ".vo")])
+    closed, axioms = 0, []
+    if not ok_props:
+        m = _re.search(r'File "\./([^"]+)", line (\d+)', log_props)
+        where = f"{m.group(1)}:{m.group(2)}" if m else props_file
+        err = log_props[log_props.find("Error"):][:700] if "Error" in log_props else log_props[-700:]
+        broken.append({"kind": "proof-obligation", "where": where, "error": err})
+    else:
+        ok_a, res, out_a = ctx.coq_assumptions(props_file)
+        if not ok_a:
+            broken.append({"kind": "proof-obligation", "where": props_file, "error": out_a[-600:]})
+        else:
+            closed, axioms = res
+            bad_ax = [a for a in axioms if a not in ALLOWED_AXIOMS]
+            if bad_ax:
+                broken.append({"kind": "axiom-audit", "where": props_file, "error": "theorems depend on axioms: " + ", ".join(bad_ax)})
+    cone = [f for f in cone_files if os.path.exists(os.path.join(COQ, f))]
+    bad = ctx.audit_sources(cone)
+    if bad:
+        broken.append({"kind": "source-audit", "where": ", ".join(bad), "error": "forbidden vernacular in the development"})
+    return dict(broken=broken, closed=closed, axioms=axioms, n_qed=ctx.count_qed(cone), ok_model=ok_model, ok_props=ok_props)
+
+
+def parse_case_mismatches(results):
+    import re as _re
+    out = []
+    for f, txt in sorted(results.items()):
+        if txt == "[]":
+            continue
+        for m in _re.finditer(r"\(\s*(\d+)\s*,\s*(\[[^\]]*\]|[^()\[\]]*?)\s*\)", txt):
+            out.append((os.path.basename(f), int(m.group(1)), m.group(2).strip()))
+    return out
+
+
+def conclude(ctx, cq, violations, broken_extra, coverage, assumptions, checker_cmd, model_note, mismatch_input=None, max_lines=5):
+    """Common verdict: known findings, VIOLATION lines, evidence. Returns the exit code."""
+    broken = cq["broken"] + broken_extra
+    new, known_seen = ctx.classify(violations)
+    for k in [k for k in ctx.known_findings() if k["property"] == ctx.pid and k["status"] == "known"]:
+        cnt = known_seen.get(k["key"], (None, 0))[1]
+        print(f"KNOWN-FINDING: property={ctx.pid} {k['what']} [key {k['key']}; seen {cnt}x in this run; replay {k.get('replay', '-')}]")
+    rc, nviol = 0, 0
+    if new:
+        bykey = {}
+        for v in new:
+            sz = len(json.dumps(v["input"]))
+            if v["key"] not in bykey or sz < bykey[v["key"]][0]:
+                bykey[v["key"]] = (sz, v)
+        for key, (_, v) in sorted(bykey.items())[:max_lines]:
+            name = re.sub(r"[^A-Za-z0-9_.-]+", "_", key.split("/", 1)[-1])[:60]
+            path = ctx.write_replay(name, {"kind": "counterexample", "key": key, "what": v["what"], "input": v["input"],
+                                           "observed": v.get("detail"), "expected": {"by": "the property's own oracle run on the implementation"},
+                                           "broken": broken, "seed": ctx.seed})
+            print(f"VIOLATION property={ctx.pid} replay={path}")
+            nviol += 1
+        rc = 1
+    elif broken:
+        path = ctx.write_replay("broken", {"kind": "broken-obligation", "broken": broken, "seed": ctx.seed, "input": mismatch_input,
+                                           "note": "the property is no longer shown to hold; the search over the property's oracle found no failing input"})
+        print(f"VIOLATION property={ctx.pid} replay={path} no-failing-input-found")
+        rc, nviol = 1, 1
+    proof_broken = any(b["kind"] in ("proof-obligation", "axiom-audit", "source-audit") for b in broken)
+    cov = dict(coverage)
+    cov.update({
+        "obligations": max(cq["n_qed"], 1), "discharged": 0 if proof_broken else max(cq["n_qed"], 1),
+        "checker_cmd": checker_cmd,
+        "trusted_base": TRUSTED_BASE_COMMON + [model_note,
+                                               f"Print Assumptions: {cq['closed']} theorems closed under the global context, axioms: {cq['axioms'] or 'none'}"],
+        "property_theorems": cq["closed"], "axioms": cq["axioms"], "broken": broken,
+        "known_findings_seen": {k: c for k, (_, c) in known_seen.items()}, "repo": ctx.repo_rev(),
+    })
+    ctx.write_evidence(cov, assumptions, nviol)
+    return rc
